@@ -1261,6 +1261,62 @@ func (up4 *UP4) configureMeters(qers []qer) error {
 	return nil
 }
 
+// reconfigureMeters brings the meter cells of updated QERs up to date with their new rates. QERs that have no
+// meter yet (created by this modification) get one; they are returned so that a failing request can release them.
+func (up4 *UP4) reconfigureMeters(qers []qer) ([]qer, error) {
+	created := make([]qer, 0)
+
+	for _, q := range qers {
+		id := meterID{qerID: q.qerID, fseid: q.fseID}
+
+		m, exists := up4.meters[id]
+		if !exists {
+			if err := up4.configureMeters([]qer{q}); err != nil {
+				return created, err
+			}
+
+			created = append(created, q)
+
+			continue
+		}
+
+		p4MeterID := p4constants.MeterPreQosPipeAppMeter
+		if m.meterType == meterTypeSession {
+			p4MeterID = p4constants.MeterPreQosPipeSessionMeter
+		}
+
+		var newCell uint32
+
+		if m.meterType == meterTypeApplication && m.downlinkCellID == m.uplinkCellID && q.ulMbr != q.dlMbr {
+			// one cell holds one rate: the downlink direction gets a cell of its own
+			cell, err := up4.allocateAppMeterCellID()
+			if err != nil {
+				return created, err
+			}
+
+			newCell = cell
+			m.downlinkCellID = cell
+		}
+
+		entries := []*p4.MeterEntry{
+			up4.p4RtTranslator.BuildMeterEntry(p4MeterID, m.uplinkCellID, getMeterConfigurationFromQER(q.ulMbr, q.ulGbr)),
+		}
+		if m.downlinkCellID != m.uplinkCellID {
+			entries = append(entries,
+				up4.p4RtTranslator.BuildMeterEntry(p4MeterID, m.downlinkCellID, getMeterConfigurationFromQER(q.dlMbr, q.dlGbr)))
+		}
+
+		if err := up4.p4client.ApplyMeterEntries(p4.Update_MODIFY, entries...); err != nil {
+			up4.releaseAppMeterCellID(newCell)
+			return created, ErrOperationFailedWithReason("configure P4 Meter from QER", err.Error())
+		}
+
+		up4.meters[id] = m
+	}
+
+	return created, nil
+}
+
 func verifyPDR(pdr pdr) error {
 	if pdr.precedence > math.MaxUint16 {
 		return ErrUnsupported("precedence greater than 65535", pdr.precedence)
@@ -1735,9 +1791,24 @@ func (up4 *UP4) sendUpdate(all PacketForwardingRules, updated PacketForwardingRu
 		up4.updateUEAddrAndFSEIDMappings(p)
 	}
 
+	// Update QER changes the rates the meter cells enforce
+	createdMeters, err := up4.reconfigureMeters(updated.qers)
+	releaseCreatedMeters := func() {
+		if errReset := up4.resetMeters(createdMeters); errReset != nil {
+			logger.PfcpLog.Warnf("failed to reset the meters of a rejected modification: %v", errReset)
+		}
+	}
+
+	if err != nil {
+		releaseCreatedMeters()
+		return err
+	}
+
 	newTunnelPeerUsers, err := up4.updateTunnelPeersBasedOnFARs(updated.fars)
 	if err != nil {
 		up4.withdrawTunnelPeers(newTunnelPeerUsers)
+		releaseCreatedMeters()
+
 		return err
 	}
 
@@ -1763,6 +1834,7 @@ func (up4 *UP4) sendUpdate(all PacketForwardingRules, updated PacketForwardingRu
 		}
 
 		up4.withdrawTunnelPeers(withdraw)
+		releaseCreatedMeters()
 
 		return err
 	}
